@@ -194,7 +194,6 @@ def run_case(spec, ctx):
         out["nontrivial"] = len(results) >= 3 and len(vectors) >= 2
     if out["violations"]:
         out["status"] = "violated"
-        out["violations"] = out["violations"][:6]
     for v in out["violations"]:
         F.classify(ID, v, text=text)
     out["model_text"] = text if out["violations"] and len(text) < 5000 else (spec.get("file") if out["violations"] else None)
